@@ -94,6 +94,33 @@ func (di *DeclInterp) xpathOf(d rdecl, n *idr.Node) (xp string, ok bool) {
 	return ".", true
 }
 
+// matchAll evaluates an xpath from n: the expression is compiled by the library (which also turns down
+// what is not a node-set expression), the iteration is done here, so that a shortcut taken inside the
+// library's MatchAll / MatchSingle is not shared with the reference.
+func matchAll(n *idr.Node, xp string) (nodes []*idr.Node, err error) {
+	if xp == "." {
+		return []*idr.Node{n}, nil
+	}
+	expr, err := idr.GetNodeSetXPathExpr(xp)
+	if err != nil {
+		return nil, err
+	}
+	defer func() {
+		if r := recover(); r != nil {
+			nodes, err = nil, fmt.Errorf("xpath query failed: %v", r)
+		}
+	}()
+	iter := idr.QueryIter(n, expr)
+	for iter.MoveNext() {
+		cur, ok := iter.Current().(interface{ Current() *idr.Node })
+		if !ok {
+			return nil, fmt.Errorf("unexpected navigator type %T", iter.Current())
+		}
+		nodes = append(nodes, cur.Current())
+	}
+	return nodes, nil
+}
+
 type position int
 
 const (
@@ -111,7 +138,7 @@ func (di *DeclInterp) single(d rdecl, n *idr.Node, pos position) (*idr.Node, err
 	if !ok {
 		return nil, nil
 	}
-	nodes, err := idr.MatchAll(n, xp, idr.DisableXPathCache)
+	nodes, err := matchAll(n, xp)
 	if err != nil {
 		return nil, fail("xpath %q: %v", xp, err)
 	}
@@ -198,7 +225,7 @@ func (di *DeclInterp) eval(d rdecl, n *idr.Node, pos position) (interface{}, err
 			nodes := []*idr.Node{n}
 			if xp != "." {
 				var err error
-				if nodes, err = idr.MatchAll(n, xp, idr.DisableXPathCache); err != nil {
+				if nodes, err = matchAll(n, xp); err != nil {
 					return nil, fail("xpath %q: %v", xp, err)
 				}
 			}
